@@ -26,9 +26,7 @@ contract(M + 'match_scope', params=dict(self=CSSMATCH, el=NODE), returns=BOOL, e
 # an abstract spec function; the evidence lists them as "proved modulo" edges
 for fn, params, spec in [
     ('match_defined', dict(self=CSSMATCH, el=NODE), 'sem_defined(self, el)'),
-    ('match_root', dict(self=CSSMATCH, el=NODE), 'sem_root(self, el)'),
     ('match_placeholder_shown', dict(self=CSSMATCH, el=NODE), 'sem_placeholder(self, el)'),
-    ('match_empty', dict(self=CSSMATCH, el=NODE), 'sem_empty(self, el)'),
     ('match_default', dict(self=CSSMATCH, el=NODE), 'sem_default(self, el)'),
     ('match_indeterminate', dict(self=CSSMATCH, el=NODE), 'sem_indeterminate(self, el)'),
     ('match_dir', dict(self=CSSMATCH, el=NODE, directionality=FLAGS), 'sem_dir(self, el, directionality)'),
@@ -87,7 +85,6 @@ contract(M + 'match_relations', params=REL, returns=BOOL, requires=['el is not N
 
 for fn, params, spec in [
     ('match_lang', dict(self=CSSMATCH, el=NODE, langs=TSeq(SELLANG)), 'sem_lang(self, el, langs)'),
-    ('match_contains', dict(self=CSSMATCH, el=NODE, contains=TSeq(SELCONTAINS)), 'sem_contains(self, el, contains)'),
 ]:
     contract(M + fn, params=params, returns=BOOL, ensures=[f'result == {spec}'], opaque=True, properties=['C01'])
 
@@ -100,7 +97,7 @@ contract(M + 'match_selectors', params=dict(self=CSSMATCH, el=NODE, selectors=SE
                         invariant=['match == (_i1 > 0 and is_not)', 'is_not == selectors.is_not', 'is_html == selectors.is_html',
                                    'wf_from(selectors, _i1)',
                                    f'any_from({CTX}, el, selectors.selectors, _i1) == any_from({CTX}, el, selectors.selectors, 0)'])},
-         unfold=3, opaque_specs=['sem_nth', 'sem_attrs', 'sem_ids', 'sem_classes', 'sem_range'],
+         unfold=2, opaque_specs=['sem_nth', 'sem_attrs', 'sem_ids', 'sem_classes', 'sem_range'],
          properties=['C01', 'C04', 'C05', 'C11'])
 contract(M + 'match', params=dict(self=CSSMATCH, el=NODE), returns=BOOL, requires=['ir_wf_list(self.selectors)'] + WF,
          ensures=[f'result == matches({CTX}, el)'], properties=['C03'])
@@ -198,3 +195,46 @@ contract(M + 'match_attributes', params=dict(self=CSSMATCH, el=NODE, attributes=
          ensures=['result == sem_attrs(self, self.namespaces, el, attributes)'],
          loops={1: dict(var='a', invariant=['match', 'all_attrs(self, self.namespaces, el, attributes, _i1) == all_attrs(self, self.namespaces, el, attributes, 0)'])},
          properties=['C01', 'C11', 'C12'])
+
+contract(M + 'match_empty', params=dict(self=CSSMATCH, el=NODE), returns=BOOL, requires=['el is not None'],
+         ensures=['result == sem_empty(self, el)'],
+         loops={1: dict(var='child', assume_elem=['child is not None'],
+                        invariant=['is_empty', 'empty_from(_seq1, _i1) == empty_from(_seq1, 0)',
+                                   '_seq1 == kids_spec(self, el, None, False, False, False)'])},
+         properties=['C01', 'C19'])
+contract(M + 'match_root', params=dict(self=CSSMATCH, el=NODE), returns=BOOL, requires=['el is not None'] + WF,
+         ensures=['result == sem_root(self, el)'], locals=dict(sibling=NODE),
+         loops={1: dict(invariant=['(is_root and clear_before(sibling)) == clear_before(previous_sibling(el))',
+                                   'sibling is None or (parent(sibling) is not None)'],
+                        decreases='0 if sibling is None else 2 * (idx(sibling) + 1) + (1 if is_root else 0)'),
+                2: dict(invariant=['(is_root and clear_after(sibling)) == clear_after(next_sibling(el))',
+                                   'sibling is None or (parent(sibling) is not None)'],
+                        decreases='0 if sibling is None else 2 * (len(contents(parent(sibling))) - idx(sibling)) + (1 if is_root else 0)')},
+         properties=['C01'])
+
+contract(M + 'extended_language_filter', params=dict(self=CSSMATCH, lang_range=STR, lang_tag=STR), returns=BOOL, merge=False, prefer_cvc5=True,
+         ensures=['result == lang_filter(lang_range, lang_tag)'],
+         loops={1: dict(invariant=['(match and rest_ok(ranges, subtags, rindex, sindex)) == (first_ok(ranges, subtags) and rest_ok(ranges, subtags, 1, 1))',
+                                   'rindex >= 1', 'sindex >= 1', 'length == len(ranges)', 'slength == len(subtags)', 'len(ranges) >= 1', 'len(subtags) >= 1',
+                                   'ranges == split_dash(py_lower(wild_strip(old(lang_range))))', 'subtags == split_dash(py_lower(lang_tag))'],
+                        decreases='(2 * (length - rindex) + (slength - sindex if sindex < slength else 0) + 1) if match else 0')},
+         properties=['C13'])
+
+contract('soupsieve.css_match._DocumentNav.get_text', params=dict(self=CSSMATCH, el=NODE, no_iframe=BOOL), returns=STR,
+         ensures=['result == text_of(self, el, no_iframe)'], opaque=True, properties=['C19'])
+contract('soupsieve.css_match._DocumentNav.get_own_text', params=dict(self=CSSMATCH, el=NODE, no_iframe=BOOL), returns=TSeq(STR),
+         ensures=['result == own_texts(self, el, no_iframe)'], opaque=True, properties=['C19'])
+contract(M + 'match_contains', params=dict(self=CSSMATCH, el=NODE, contains=TSeq(SELCONTAINS)), returns=BOOL, requires=['el is not None'],
+         ensures=['result == sem_contains(self, el, contains)'],
+         locals=dict(content=TOpt(STR), own_content=TOpt(TSeq(STR))),
+         loops={1: dict(var='contain_list',
+                        invariant=['(match and all_contains(self, el, contains, _i1)) == all_contains(self, el, contains, 0)',
+                                   'is_none(content) or val(content) == text_of(self, el, self.is_html)',
+                                   'is_none(own_content) or val(own_content) == own_texts(self, el, self.is_html)']),
+                2: dict(var='text',
+                        invariant=['not found',
+                                   'implies(contain_list.own, not is_none(own_content) and any_needle_own(contain_list.text, val(own_content), _i2) == any_needle_own(contain_list.text, val(own_content), 0))',
+                                   'implies(not contain_list.own, not is_none(content) and any_needle(contain_list.text, val(content), _i2) == any_needle(contain_list.text, val(content), 0))',
+                                   '_seq2 == contain_list.text']),
+                3: dict(var='c', invariant=['not found', 'any_hay(text, _seq3, _i3) == any_hay(text, _seq3, 0)', '_seq3 == val(own_content)'])},
+         properties=['C19'])
